@@ -35,7 +35,7 @@ ASSUMPTIONS = [
 def value_case(draw):
     o = gens.opts(dynamic=False, unions=False, max_fields=12, max_depth=1, signed_flags=False, zero_len=True, bits_weight=4,
                   arrays=draw(st.booleans()), anon_weight=draw(st.sampled_from([1, 4])), anon_nested=draw(st.booleans()))
-    case = draw(gens.input_case(o, tail=False))
+    case = draw(gens.input_case(o, tail=False, cfg_kw={"flip": True}))
     root = [d for d in case["defs"] if d["n"] == "Root"][0]["t"]
     n = len(root["fields"])
     case["which"] = draw(st.sampled_from(["first", "middle", "last", "last"]))
